@@ -1174,6 +1174,35 @@ Definition gRegop (v : value) : regop :=
   | _ => RRead (gS (nth_v 1 v)) (gS (nth_v 2 v))
   end.
 
+(* user-specific values: conf.registerUserValue(group, name, value) (since the repair of C15.F32) scans the cache like
+   its siblings and instantiates the <var>.<user id> children: one part that str.isdigit() accepts (ASCII digits are
+   modelled; user ids are str(int)) *)
+Definition is_userid (s : str) : bool := nonempty s && forallb (fun c => (48 <=? c) && (c <=? 57)) s.
+Definition scan_key_user (gname key : str) : res (list path) :=
+  match match_key gname key with
+  | None => Ok []
+  | Some rest =>
+      do parts <- split rest;
+      match parts with
+      | [p] => if is_userid p then Ok [[p]] else Ok []
+      | _ => Ok []
+      end
+  end.
+Fixpoint scan_keys_user (d : decl) (C : cache) (keys : list str) (st : vstate) : res vstate :=
+  match keys with
+  | [] => Ok st
+  | key :: keys' =>
+      do ps <- scan_key_user (gname_of d) key;
+      do st1 <- ensure_all d C st ps;
+      scan_keys_user d C keys' st1
+  end.
+Definition load_user_var (d : decl) (C : cache) : res vstate :=
+  do b <- match cache_get (gname_of d) C with
+          | Some x => k_settext (d_kind d) (d_dflt d) x
+          | None => Ok (d_dflt d)
+          end;
+  scan_keys_user d C (map fst C) (mkvs b []).
+
 (* the width NormalizedString.serialize asks textwrap for: max(COLS - (len(name) + EXTRA), MIN) (constants
    regenerated; MIN = 0 when the source has no max()).  textwrap.wrap raises ValueError for a width <= 0
    and registry.close() only logs the exception: the value line is then NOT WRITTEN. *)
